@@ -108,7 +108,8 @@ class PEAllocH(MethodHarness):
 def jobs(tier):
     js = []
     if tier == "quick":
-        grid = [(2, 1, 1, -1), (2, 2, 1, -1), (3, 1, 1, -1), (3, 2, 1, -1), (3, 1, 2, -1), (3, 2, 2, 0b010), (4, 2, 1, 0b0110)]
+        grid = [(2, 1, 1, -1), (2, 2, 1, -1), (3, 1, 1, -1), (3, 2, 1, -1), (3, 1, 2, -1), (3, 2, 2, 0b010), (4, 2, 1, 0b0110),
+                (2, 1, 1, -2), (3, 2, 1, ~0b101), (3, 1, 1, 0)]
         for e, a, f, init in grid:
             js.append(E1("checks.c25", "PEAllocH", {"entries": e, "alloc_ways": a, "free_ways": f, "init": init,
                                                     "all_replace": e <= 3}))
@@ -116,7 +117,7 @@ def jobs(tier):
         for e in (1, 2, 3, 4):
             for a in (1, 2, 3):
                 for f in (1, 2):
-                    for init in (-1, 0b0110, 0):
+                    for init in (-1, 0b0110, 0, -2, ~0b0101):
                         if a <= e and f <= e:
                             js.append(E1("checks.c25", "PEAllocH", {"entries": e, "alloc_ways": a, "free_ways": f,
                                                                     "init": init, "peek_always": e >= 4}))
